@@ -19,7 +19,9 @@ RULE = (
     "flat_stream_to_file, grouped_stream_to_file, sink.serialize; rdflib: Graph/Dataset.serialize with options, with an "
     "explicit stream, stream_frames, flat_stream_to_file, grouped_stream_to_file} x Hypothesis-generated non-empty inputs "
     "of the matching arity (lengths 1, 2, frame_size+-1, longer) plus two fixed shapes (a consecutive duplicate; one triple "
-    "in two graphs back to back). Oracle: the combination raises (at construction or at "
+    "in two graphs back to back); plus, for the entry points that take an options object with an inferred flow, the same "
+    "lattice with that ONE options object already used by an earlier call (completed, or aborted mid-encoding by an "
+    "unsupported term). Oracle: the combination raises (at construction or at "
     "the call), or the bytes written decode - by the reference decoder and by pyjelly's own flat parser - to the input "
     "and no captured stream has rows left in its flow when the call returns. "
     "non-trivial = accepted configuration that is not the default (non-delimited, grouped or unspecified logical type, "
@@ -65,7 +67,14 @@ def lattice():
                 "generic.grouped_stream_to_file", "rdflib.grouped_stream_to_file", "rdflib.serialize_options", "rdflib.serialize_stream"):
             if pt["flow"] in (None, "BoundedFrameFlow:lt", "ManualFrameFlow:lt", "GraphsFrameFlow:lt", "DatasetsFrameFlow:lt"):
                 with_ns.append({**pt, "ns": True})
-    return pts + with_ns
+    # one SerializerOptions object used for two calls (flow inferred): the first call either completes or is aborted in the
+    # middle of encoding by a term the encoder does not support; the second call is the one that is checked
+    reuse = []
+    for pt in pts:
+        if pt["flow"] is None and pt["entry"].split(".")[1] in ("flat_stream_to_file", "grouped_stream_to_file", "serialize_options"):
+            reuse.append({**pt, "reuse": "after_failure"})
+            reuse.append({**pt, "reuse": "after_success"})
+    return pts + with_ns + reuse
 
 
 BINDINGS = [["ex", "http://ex.org/"], ["", "http://ex.org/ns2/"], ["dt", "http://dt.org/"]]
@@ -94,6 +103,47 @@ def bound(pt, obj, integ):
         for p_, ns in BINDINGS:
             obj.bind(p_, rdflib.URIRef(ns))
     return obj
+
+
+def earlier_call(pt, stmts, integ, name, opts):
+    """The history of a reused options object: one earlier call with the same object, aborted or completed."""
+    native = pyj.conv_stmts(stmts[:2], integ)
+    if pt["reuse"] == "after_failure":
+        if integ == "generic":
+            bad = type(native[0])(*native[0][:2], 12345, *native[0][3:])  # an int is not a term
+        else:
+            import rdflib
+
+            bad = type(native[0])(*native[0][:2], rdflib.Variable("v"), *native[0][3:])
+        native = native[:1] + [bad]
+    arity = len(stmts[0])
+    buf = io.BytesIO()
+    if integ == "generic":
+        from pyjelly.integrations.generic import serialize as ser
+        from pyjelly.integrations.generic.generic_sink import GenericStatementSink
+    else:
+        from pyjelly.integrations.rdflib import serialize as ser
+    try:
+        if name == "flat_stream_to_file":
+            ser.flat_stream_to_file((x for x in native), buf, options=opts)
+        else:
+            if integ == "generic":
+                cont = GenericStatementSink()
+                for x in native:
+                    cont.add(x)
+            else:
+                import rdflib
+
+                cont = rdflib.Graph() if arity == 3 else rdflib.Dataset()
+                for x in native:
+                    cont.add(tuple(x))
+            if name == "grouped_stream_to_file":
+                ser.grouped_stream_to_file((x for x in [cont]), buf, options=opts)
+            else:
+                cont.serialize(format="jelly", encoding="jelly", options=opts)
+    except Exception:  # noqa: BLE001
+        return "raised"
+    return "completed"
 
 
 def execute(pt, stmts):
@@ -131,7 +181,11 @@ def execute(pt, stmts):
             if name == "serialize_options":
                 cfg = cfg_of(pt, "TRIPLES")
                 g = bound(pt, scen.rdflib_container(stmts, "TRIPLES" if arity == 3 else "QUADS"), "rdflib")
-                out = g.serialize(format="jelly", encoding="jelly", options=pyj.make_options(cfg))
+                opts = pyj.make_options(cfg)
+                if pt.get("reuse"):
+                    earlier_call(pt, stmts, integ, name, opts)
+                    cap.streams.clear()
+                out = g.serialize(format="jelly", encoding="jelly", options=opts)
                 return ("ok", out, pt["delimited"], cap.streams, projection)
             buf = io.BytesIO()
             if name == "sink_serialize":
@@ -139,6 +193,9 @@ def execute(pt, stmts):
                 return ("ok", buf.getvalue(), True, cap.streams, projection)
             cfg = cfg_of(pt, "TRIPLES")
             opts = pyj.make_options(cfg)
+            if pt.get("reuse"):
+                earlier_call(pt, stmts, integ, name, opts)
+                cap.streams.clear()
             if integ == "generic":
                 from pyjelly.integrations.generic import serialize as ser
             else:
@@ -174,7 +231,8 @@ def check_point(pt, stmts, acc):
     nondefault = (not pt["delimited"]) or pt["logical"] not in flat_ids or pt["flow"] is not None or (
         pt["frame_size"] is not None and pt["frame_size"] < len(stmts) + 1)
     if acc is not None:
-        acc.case(case, bool(nondefault), ["accepted", "entry_" + pt["entry"]] + (["accepted_nondefault"] if nondefault else []))
+        acc.case(case, bool(nondefault), ["accepted", "entry_" + pt["entry"]] + (["accepted_nondefault"] if nondefault else [])
+                 + (["options_reused_" + pt["reuse"]] if pt.get("reuse") else []))
     lt = pt["logical"]
     kind = "flat" if lt in flat_ids else ("unspecified" if lt == 0 else "grouped") if lt is not None else "default"
     flowname = (pt["flow"] or "inferred").split(":")[0]
